@@ -370,6 +370,9 @@ class Context:
                 if getter is UNDEFINED and setter is UNDEFINED:
                     value = descriptor.get("value")
                     if value is not UNDEFINED:
+                        # a data descriptor replaces an accessor of the same name
+                        obj._getters.pop(prop_name, None)
+                        obj._setters.pop(prop_name, None)
                         obj.set(prop_name, value)
 
             return obj
